@@ -22,7 +22,7 @@ PROPERTY = 'C10'
 LEVEL = 'model_checking'
 BOUNDS = {'quick': {'cyclic': '1-2 blocks: every wiring with <= 2 inputs per block; 3 blocks: rings with chords', 'acyclic': 'catalog of 6 networks',
                     'eval order': 'all pop()/iteration-start choices (quick: the first 2-4 selection points of each burst are enumerated, name order afterwards)'},
-          'thorough': {'cyclic': '1-3 blocks: every wiring (3: one enumerated selection point per burst); 4 blocks: rings with chords', 'acyclic': 'catalog + generated ladders',
+          'thorough': {'cyclic': '1-3 blocks: every wiring (3: one enumerated selection point per burst); 4 blocks: rings with chords (one enumerated selection point per burst)', 'acyclic': 'catalog (8 networks, one of them at the documented margin)',
                        'eval order': 'as quick'}}
 OUTSIDE = ["networks with more than 4 cyclic blocks", "block functions other than Not/Xor/identity/And/Or",
            "cyclic networks WITH a consistent assignment may either settle or be reported (both accepted)"]
@@ -33,6 +33,7 @@ EXPECT_LABELS = {'all': ['unsat-reported', 'eval-bound', 'idle-consistent', 'acy
 EXPECT_NOTES = {'all': ['no-consistent-assignment', 'consistent-settled', 'acyclic-at-the-margin', 'burst-above-3-per-cblock']}
 FLOORS = {'quick': {'paths': 500, 'checks': 1000}, 'thorough': {'paths': 5000, 'checks': 10000}}
 
+DOCUMENTED_MARGIN = 3     # evaluations per block of the circuit and burst (a literal: not read from the code under test)
 COUNT = [0]
 RUNAWAY = 500          # watchdog: far beyond any documented limit (3 x <= 8 blocks)
 
@@ -143,7 +144,7 @@ def _run_net(env, spec, ninputs, label_prefix, expect_acyclic, order_budget, nam
         blocks.append(make_block(kind, cname(j), srcnames))
     drv.start()
     nblocks = len(list(drv.circ.getblocks()))
-    limit = simulator._MAX_EVALS_PER_BLOCK * nblocks
+    limit = DOCUMENTED_MARGIN * nblocks
     COUNT[0] = 0
     err = drv.run_to_idle()
     n_eval = COUNT[0]
@@ -173,7 +174,7 @@ def _run_net(env, spec, ninputs, label_prefix, expect_acyclic, order_budget, nam
         sat2 = has_consistent_assignment(spec, truth2)
         unstable2 = isinstance(err2, edzed.EdzedCircuitError) and 'instability' in str(err2)
         env.check('eval-bound', COUNT[0] <= limit, info=lambda: (spec, COUNT[0], limit))
-        if COUNT[0] > simulator._MAX_EVALS_PER_BLOCK * len(spec):
+        if COUNT[0] > DOCUMENTED_MARGIN * len(spec):
             env.note('burst-above-3-per-cblock')      # the allowance counts ALL blocks of the circuit
         if expect_acyclic:
             env.check('acyclic-never-unstable', err2 is None, info=lambda: (spec, truth2, err2))
@@ -302,7 +303,7 @@ def _event_loop(env, kind):
         COUNT[0] = 0
         err = drv.run_to_idle()
     nblocks = len(list(drv.circ.getblocks()))
-    limit = simulator._MAX_EVALS_PER_BLOCK * nblocks
+    limit = DOCUMENTED_MARGIN * nblocks
     unstable = isinstance(err, edzed.EdzedCircuitError) and 'instability' in str(err)
     env.check('eval-bound', COUNT[0] <= limit, info=lambda: (COUNT[0], limit))
     flipped = bool(inp.output) != bool(v) if False else None
@@ -335,9 +336,11 @@ def shards(tier):
                         'cost': 3000})
     if tier == 'thorough':
         for fk in ('not', 'id', 'xor', 'and'):
-            out.append({'name': f'cyclic ring n=4 first={fk}', 'scenario': 'scen_cyclic',
-                        'params': {'n': 4, 'first_kind': fk, 'order_budget': 2, 'ring': True, 'kinds': ['not', 'xor', 'and']},
-                        'cost': 9000})
+            for f0 in ([None] if fk in ('not', 'id') else range(5)):
+                out.append({'name': f'cyclic ring n=4 first={fk} src0={f0}', 'scenario': 'scen_cyclic',
+                            'params': {'n': 4, 'first_kind': fk, 'order_budget': 1, 'ring': True, 'kinds': ['not', 'xor', 'and'],
+                                       'fix0': f0},
+                            'cost': 9000})
             out.append({'name': f'cyclic complete n=3 first={fk}', 'scenario': 'scen_cyclic',
                         'params': {'n': 3, 'first_kind': fk, 'order_budget': 1}, 'cost': 9000})
     for name in ACYCLIC:
